@@ -96,6 +96,14 @@ def make_scheduler(spec):
     setup = dict((DYHPO_SETUPS[spec["rungs"] % len(DYHPO_SETUPS)] if is_dyhpo else RUNG_SETUPS[spec["rungs"]]))
     max_t = setup.pop("max_t")
     cs = {"x": uniform(0.0, 1.0), "y": randint(0, 1000), "epochs": max_t}
+    extra_opts = {}
+    if spec.get("tiny_space"):
+        from syne_tune.config_space import choice
+        cs = {"x": choice(["a", "b", "c"][:spec["tiny_space"]]), "epochs": max_t}
+    if spec.get("allow_dup"):
+        extra_opts["allow_duplicates"] = True
+    if spec.get("max_size"):
+        extra_opts["max_size_data_for_model"] = spec["max_size"]
     sink = io.StringIO()
     with contextlib.redirect_stdout(sink), contextlib.redirect_stderr(sink):
         sch = HyperbandScheduler(
@@ -103,8 +111,8 @@ def make_scheduler(spec):
             resource_attr="epoch", max_resource_attr="epochs", brackets=1 if is_dyhpo else spec["brackets"],
             searcher_data=spec["searcher_data"], register_pending_myopic=spec["myopic"],
             rung_system_per_bracket=spec["per_bracket"], random_seed=spec["seed"] % 10000,
-            search_options={"num_init_random": spec["num_init_random"], "debug_log": False,
-                            "opt_maxiter": 3, "opt_nstarts": 1, "num_init_candidates": 20}, **setup)
+            search_options=dict({"num_init_random": spec["num_init_random"], "debug_log": False,
+                                 "opt_maxiter": 3, "opt_nstarts": 1, "num_init_candidates": 20}, **extra_opts), **setup)
     onehot = OneHot()
     # HyperTuneSearcher.configure_scheduler installs its own distribution: re-install ours afterwards
     orig = sch.searcher.configure_scheduler
@@ -146,6 +154,64 @@ def read_state(sch):
     return obs, pend, failed, dup_trial
 
 
+def fitted_data_problems(sch, spec, stats):
+    """Second observation point: the data set the surrogate model is actually fitted to -- the state after the state
+    converter (state_transformer.fit().state, down-sampled to max_size_data_for_model) and the rows
+    observed_data_for_metric() hands to the model. Every fitted observation must be a CURRENT observation with its current
+    value; the documented size min(#observations, max_size) must be met; every fitted (trial, level) gives one row."""
+    tr = sch.searcher.state_transformer
+
+    def obs_of(state):
+        return {(str(ev.trial_id), int(r)): float(v) for ev in state.trials_evaluations
+                for r, v in ev.metrics.get("target", {}).items()}
+
+    full = obs_of(tr.state)
+    if not full:
+        return []
+    try:
+        pred = tr.fit()
+    except Exception as e:      # a fit the harness asked for; not part of the property
+        stats["fit_exceptions"] = stats.get("fit_exceptions", 0) + 1
+        return []
+    if isinstance(pred, dict):
+        pred = next(iter(pred.values()))
+    fstate = pred.state
+    stats["fits"] = stats.get("fits", 0) + 1
+    fitted = obs_of(fstate)
+    bad = []
+    for key, val in fitted.items():
+        if key not in full:
+            bad.append(("fitted_observation_not_current", key, val, sorted(full)))
+        elif full[key] != val:
+            bad.append(("fitted_observation_value_not_current", key, val, full[key]))
+    max_size = spec.get("max_size") or 500
+    if len(full) > max_size:
+        stats["subsampled_fits"] = stats.get("subsampled_fits", 0) + 1
+    if len(fitted) != min(len(full), max_size):
+        bad.append(("fitted_data_size", len(fitted), len(full), max_size))
+    if len(full) <= max_size and fitted != full:
+        bad.append(("fitted_data_differs_without_subsampling", sorted(set(full) ^ set(fitted))))
+    # rows handed to the surrogate
+    configs, values = fstate.observed_data_for_metric()
+    base_keys = set(next(iter(fstate.config_for_trial.values())).keys()) if fstate.config_for_trial else set()
+    rows = []
+    for cfg, val in zip(configs, values):
+        rk = [k for k in cfg if k not in base_keys]
+        rows.append((tuple(sorted((k, str(v)) for k, v in cfg.items() if k in base_keys)), int(cfg[rk[0]]) if rk else None, float(val)))
+    want = []
+    for (tid, r), val in fitted.items():
+        cfg = fstate.config_for_trial[tid]
+        want.append((tuple(sorted((k, str(v)) for k, v in cfg.items())), r, val))
+    if sorted(rows) != sorted(want):
+        missing = [w for w in want if w not in rows]
+        bad.append(("rows_handed_to_surrogate_differ", len(rows), len(want), missing[:3]))
+        if len(set((w[0], w[1]) for w in want)) < len(want):
+            stats["duplicate_inputs"] = stats.get("duplicate_inputs", 0) + 1
+    elif len(set((w[0], w[1]) for w in want)) < len(want):
+        stats["duplicate_inputs"] = stats.get("duplicate_inputs", 0) + 1
+    return bad
+
+
 class Life:
     """harness-side bookkeeping of one trial (independent of the model)"""
 
@@ -171,6 +237,7 @@ def run_case(spec, ops=None):
     lives, trials = {}, {}
     next_id = 0
     recorded, events, snaps, problems = [], [], [], []
+    fit_stats = {}
     exc = None
     t0 = datetime.datetime(2020, 1, 1)
 
@@ -274,6 +341,8 @@ def run_case(spec, ops=None):
         obs, pend, failed, dup = read_state(sch)
         snaps.append((obs, pend, failed, decision))
         bad = check_state(spec, rung_levels, max_t, lives, obs, pend, dup, crit)
+        if not bad and spec.get("check_fit") and op[0] in ("report", "complete"):
+            bad = fitted_data_problems(sch, spec, fit_stats)
         if bad:
             problems.append((len(recorded) - 1, op, bad))
             break
@@ -282,7 +351,7 @@ def run_case(spec, ops=None):
             snaps.pop()
             recorded.pop()
     return dict(ops=recorded, events=events, snaps=snaps, problems=problems, exc=exc,
-                rung_levels=rung_levels, max_t=max_t, lives=lives)
+                rung_levels=rung_levels, max_t=max_t, lives=lives, fit_stats=fit_stats)
 
 
 def check_state(spec, rung_levels, max_t, lives, obs, pend, dup, crit):
@@ -372,6 +441,7 @@ def run_sync_case(spec):
     events, snaps, problems = [], [], []
     next_id = 0
     exc = None
+    ended_at_failed_promotion = False
 
     def crit(v):
         return 1.0 - v if spec["mode"] == "max" else v
@@ -423,6 +493,13 @@ def run_sync_case(spec):
                     check(("suggest", tid))
                 else:
                     tid = int(sug.checkpoint_trial_id)
+                    if status.get(tid) == "failed":
+                        # a rung with fewer valid results than next-rung slots: get_top_list promotes a FAILED trial. The
+                        # Tuner cannot resume a trial that is not paused (trial_backend.resume_trial asserts: finding
+                        # F-C13-2), so no legal history continues from here; the case ends (the levels such a trial never
+                        # delivered before failing would be dropped by the 'resource > prev_level' guard)
+                        ended_at_failed_promotion = True
+                        break
                     trials[tid] = Trial(trial_id=tid, config=sug.config, creation_time=t0)
                     prev = job[tid]["ms"]
                     job[tid].update(ms=ms, prev=prev, pos=prev if spec["ckpt"] else 0)
@@ -457,7 +534,7 @@ def run_sync_case(spec):
     n = min(len(events), len(snaps))
     evs = ["(%s, %s)" % (events[i], coq_snapshot(snaps[i])) for i in range(n)]
     term = "(%s, %s, %s)" % (blit(spec["searcher_data"] == "all"), blit(spec["mode"] == "max"), lst(evs) if evs else "[]")
-    return dict(term=term, problems=problems, exc=exc, nevents=n,
+    return dict(term=term, problems=problems, exc=exc, nevents=n, ended_at_failed_promotion=ended_at_failed_promotion,
                 resumed_from_scratch=(not spec["ckpt"]) and any(x["prev"] > 0 for x in job.values()))
 
 
@@ -502,6 +579,15 @@ def run(ctx, replay=None):
     else:
         todo = [(gen_spec(rng), None) for _ in range(ctx.n(260, 4000))]
         todo += [(gen_spec(rng, fits=True), None) for _ in range(ctx.n(3, 40))]
+        for _ in range(ctx.n(22, 250)):      # the data the surrogate is fitted to: down-sampling, duplicate configurations
+            sp = gen_spec(rng)
+            dup = rng.random() < 0.5
+            sp.update(searcher="bayesopt", type=rng.choice(["stopping", "stopping", "promotion"]), check_fit=True,
+                      searcher_data=rng.choice(["rungs_and_last", "rungs_and_last", "all", "rungs"]),
+                      max_size=rng.choice([3, 4, 6, None]), allow_dup=dup, tiny_space=rng.choice([2, 3]) if dup else None,
+                      num_init_random=2, nops=rng.randint(15, 35), p_fail=rng.choice([0.0, 0.05]), brackets=1,
+                      rungs=rng.choice([0, 1, 5]), workers=rng.randint(1, 3))
+            todo.append((sp, None))
         for _ in range(ctx.n(24, 300)):      # DyHPO (type="dyhpo", searcher="dyhpo"): promotion-type data path
             sp = gen_spec(rng)
             sp.update(type="dyhpo", searcher="dyhpo", brackets=1, per_bracket=False, num_init_random=10000)
@@ -526,10 +612,22 @@ def run(ctx, replay=None):
         ctx.h("checkpointing", spec["ckpt"])
         ctx.h("num_events", len(kinds) // 10 * 10)
         ctx.h("real_gp_fits", spec["num_init_random"] < 100)
+        for k, v in res.get("fit_stats", {}).items():
+            ctx.h("fitted_data_" + k, "count", v)
         if res["snaps"]:
             ctx.h("final_observations", min(len(res["snaps"][-1][0]) // 5 * 5, 30))
             ctx.h("max_pending", min(max(len(s[1]) for s in res["snaps"]), 12))
         ctx.traces_validated += 1
+        if res["exc"] is not None and spec.get("max_size") and "does not contain any candidates" in res["exc"]:
+            # with a tiny max_size_data_for_model the down-sampled state can hold no data at the resource level the
+            # acquisition function is evaluated at: an assertion of get_config that has nothing to do with WHICH data is
+            # stored; recorded as a note, the events up to it are still compared
+            ctx.h("exceptions_not_counted", "downsampled_state_has_no_data_at_target_resource")
+            note = ("get_config asserts 'state.hp_ranges does not contain any candidates ... with resource attribute == r' when "
+                    "max_size_data_for_model=%s removes all data at the target level (spec seed %d)" % (spec["max_size"], spec["seed"]))
+            if len(ctx.notes) < 3:
+                ctx.notes.append(note)
+            res["exc"] = None
         if res["exc"] is not None:
             ctx.h("exceptions", res["exc"].split(":")[0])
             ctx.violation("property", "scheduler raised %s at operation %r (a legal tuner history reaches an "
@@ -557,6 +655,7 @@ def run(ctx, replay=None):
             ctx.traces_validated += 1
             ctx.h("sync_searcher_data/mode", "%s/%s" % (sp["searcher_data"], sp["mode"]))
             ctx.h("sync_rereport_after_resume", res["resumed_from_scratch"])
+            ctx.h("sync_case_ended_at_promotion_of_failed_trial", res["ended_at_failed_promotion"])
             if res["exc"] is not None:
                 ctx.violation("property", "synchronous Hyperband raised %s" % res["exc"], case=scase,
                               signature=dict(check="exception", type="synchronous", searcher_data=sp["searcher_data"]))
